@@ -3,6 +3,7 @@ C08 (deliverable B) — helper lemmas for the pool model over explicit backing a
 (Model/ParserPools.lean): heap lemmas, the ownership invariant and its preservation.
 -/
 import VaxisModel.Model.ParserPools
+import VaxisModel.Model.ParserRun
 
 namespace VaxisModel.Lemmas.ParserPools
 open VaxisModel.Model.ParserPools
@@ -263,6 +264,139 @@ theorem run_inv (ls : List Label) (s s' : St) (hinv : Inv s) (h : run Cfg.code s
     | none => simp [hs] at h
     | some s1 =>
       simp only [hs] at h
+      exact ih s1 (step_inv s s1 l hinv hs) h
+
+/-! ### abstraction to the id-only model `Own` (Model/ParserRun.lean) -/
+
+open VaxisModel.Model.ParserRun (Own) in
+/-- Forget cells, lengths and snapshots: who owns which array id. -/
+def abs (s : St) : Own :=
+  { cur := s.cur.map (·.arr), pool := s.pool.map (·.arr), held := s.delivered.map (·.s.arr),
+    next := s.heap.length }
+
+open VaxisModel.Model.ParserRun (OwnLabel) in
+/-- The `Own` label a step of the array model corresponds to (in state `s`). -/
+def absLabel (s : St) : Label → OwnLabel
+  | .collect _ _ =>
+    match s.cur with
+    | none => .collect true
+    | some sl => .collect (!decide (sl.len < (cells s.heap sl.arr).length))
+  | .clear => .clear
+  | .dispatch none => .dispatch none
+  | .dispatch (some k) => .dispatch (some (s.pool[k]?.getD default).arr)
+  | .finish k => .finish (s.delivered[k]?.getD default).s.arr
+
+theorem map_eraseIdx_eq_erase {α : Type} (f : α → Nat) (l : List α)
+    (hp : l.Pairwise (fun a b => f a ≠ f b)) (k : Nat) (x : α) (hk : l[k]? = some x) :
+    (l.eraseIdx k).map f = (l.map f).erase (f x) := by
+  induction l generalizing k with
+  | nil => simp at hk
+  | cons a l ih =>
+    rw [List.pairwise_cons] at hp
+    cases k with
+    | zero =>
+      simp only [List.getElem?_cons_zero, Option.some.injEq] at hk
+      subst hk
+      simp
+    | succ k =>
+      simp only [List.getElem?_cons_succ] at hk
+      have hne : f a ≠ f x := hp.1 x (List.mem_of_getElem? hk)
+      simp only [List.eraseIdx_cons_succ, List.map_cons]
+      rw [List.erase_cons_tail (by simpa using hne), ih hp.2 k hk]
+
+open VaxisModel.Model.ParserRun (Own OwnLabel) in
+theorem collect_refines_Own (s s' : St) (r n : Nat)
+    (hstep : step Cfg.code s (.collect r n) = some s') :
+    (abs s).step (absLabel s (.collect r n)) = some (abs s', (abs s').cur) := by
+  simp only [step] at hstep
+  split at hstep
+  · rename_i hcur
+    split at hstep
+    · simp only [Option.some.injEq] at hstep; subst hstep
+      simp [Own.step, abs, absLabel, hcur]
+    · cases hstep
+  · rename_i sl hcur
+    split at hstep
+    · rename_i hroom
+      simp only [Option.some.injEq] at hstep; subst hstep
+      simp [Own.step, abs, absLabel, hcur, hroom, length_write]
+    · rename_i hroom
+      split at hstep
+      · simp only [Option.some.injEq] at hstep; subst hstep
+        simp [Own.step, abs, absLabel, hcur, hroom]
+      · cases hstep
+
+open VaxisModel.Model.ParserRun (Own OwnLabel) in
+theorem dispatch_refines_Own (s s' : St) (g : Option Nat) (hinv : Inv s)
+    (hstep : step Cfg.code s (.dispatch g) = some s') :
+    (abs s).step (absLabel s (.dispatch g)) = some (abs s', none) := by
+  simp only [step, Cfg.code] at hstep
+  split at hstep
+  · cases hstep
+  · rename_i sl hcur
+    split at hstep
+    · cases hstep
+    · simp only [if_true] at hstep
+      split at hstep
+      · simp only [Option.some.injEq] at hstep; subst hstep
+        simp [Own.step, abs, absLabel, hcur]
+      · rename_i k
+        split at hstep
+        · cases hstep
+        · rename_i p hp
+          simp only [Option.some.injEq] at hstep; subst hstep
+          have hmem : p.arr ∈ s.pool.map (·.arr) := List.mem_map_of_mem (List.mem_of_getElem? hp)
+          have he := map_eraseIdx_eq_erase (fun x : Slice => x.arr) s.pool hinv.poolDistinct k p hp
+          simp [Own.step, abs, absLabel, hcur, hp, hmem, he]
+
+open VaxisModel.Model.ParserRun (Own OwnLabel) in
+theorem finish_refines_Own (s s' : St) (k : Nat) (hinv : Inv s)
+    (hstep : step Cfg.code s (.finish k) = some s') :
+    (abs s).step (absLabel s (.finish k)) = some (abs s', none) := by
+  simp only [step] at hstep
+  split at hstep
+  · cases hstep
+  · rename_i d hd
+    simp only [Option.some.injEq] at hstep; subst hstep
+    have hmem : d.s.arr ∈ s.delivered.map (·.s.arr) := List.mem_map_of_mem (List.mem_of_getElem? hd)
+    have he := map_eraseIdx_eq_erase (fun x : Deliv => x.s.arr) s.delivered hinv.delDistinct k d hd
+    simp [Own.step, abs, absLabel, hd, hmem, he]
+
+open VaxisModel.Model.ParserRun (Own OwnLabel) in
+/-- Every step of the array model is the corresponding step of `Own` on the abstraction; the
+    array `Own` reports as written is the parser's array after the step. -/
+theorem step_refines_Own (s s' : St) (l : Label) (hinv : Inv s) (hstep : step Cfg.code s l = some s') :
+    ∃ w, (abs s).step (absLabel s l) = some (abs s', w) ∧ (w ≠ none → w = (abs s').cur) := by
+  cases l with
+  | collect r n => exact ⟨_, collect_refines_Own s s' r n hstep, fun _ => rfl⟩
+  | clear =>
+    simp only [step, Option.some.injEq] at hstep; subst hstep
+    refine ⟨none, ?_, fun h => absurd rfl h⟩
+    cases hc : s.cur <;> simp [Own.step, abs, absLabel, hc]
+  | dispatch g => exact ⟨none, dispatch_refines_Own s s' g hinv hstep, fun h => absurd rfl h⟩
+  | finish k => exact ⟨none, finish_refines_Own s s' k hinv hstep, fun h => absurd rfl h⟩
+
+/-- The `Own` labels of a run of the array model. -/
+def absRun : St → List Label → List VaxisModel.Model.ParserRun.OwnLabel
+  | _, [] => []
+  | s, l :: ls =>
+    absLabel s l :: (match step Cfg.code s l with
+                     | none => []
+                     | some s' => absRun s' ls)
+
+open VaxisModel.Model.ParserRun (Own OwnLabel) in
+theorem run_refines_Own (ls : List Label) (s s' : St) (hinv : Inv s) (h : run Cfg.code s ls = some s') :
+    (abs s).run (absRun s ls) = some (abs s') := by
+  induction ls generalizing s with
+  | nil => simp only [run, Option.some.injEq] at h; subst h; rfl
+  | cons l ls ih =>
+    simp only [run] at h
+    cases hs : step Cfg.code s l with
+    | none => simp [hs] at h
+    | some s1 =>
+      simp only [hs] at h
+      obtain ⟨w, hw, _⟩ := step_refines_Own s s1 l hinv hs
+      simp only [absRun, hs, Own.run, hw]
       exact ih s1 (step_inv s s1 l hinv hs) h
 
 end VaxisModel.Lemmas.ParserPools
